@@ -582,7 +582,7 @@ pub fn run(tier: Tier, seed: u64) -> i32 {
         check_inner(sub, &g, &input, seed, l)
     });
     ctx.finish(&check_case, RULE, ASSUMPTIONS, &|l| {
-        for k in ["empty_match_between_two_tokens", "empty_match_between_two_gapped_tokens", "capture_after_backtrack_over_consumed_input", "multi_byte_text", "kind:str", "kind:slice", "kind:stream", "kind:spslice", "kind:spstream", "kind:spiter", "pratt_fold_callback_cases"] {
+        for k in ["byte_slices_checked", "iter_map_with_runs", "empty_match_between_two_tokens", "empty_match_between_two_gapped_tokens", "capture_after_backtrack_over_consumed_input", "multi_byte_text", "kind:str", "kind:slice", "kind:stream", "kind:spslice", "kind:spstream", "kind:spiter", "pratt_fold_callback_cases"] {
             if l.counters.get(k).copied().unwrap_or(0) == 0 {
                 return Err(format!("class '{}' is empty", k));
             }
